@@ -228,7 +228,8 @@ impl FileSpec {
         !self.basename.is_empty()
     }
     pub(crate) fn has_discriminant(&self) -> bool {
-        self.o_discriminant.is_some()
+        // an empty discriminant adds nothing to the file name
+        self.o_discriminant.as_ref().is_some_and(|d| !d.is_empty())
     }
     pub(crate) fn uses_timestamp(&self) -> bool {
         matches!(self.timestamp_cfg, TimestampCfg::Yes)
